@@ -259,6 +259,7 @@ func cliPart(r *mon.Run) {
 	mixedPart(r, e)
 	commentPart(r, e)
 	xlPart(r, e)
+	sshSyntaxPart(r, e)
 	if r.Counter("cli_runs") < 300 {
 		r.Inconclusive("CLI part ran only %d processes", r.Counter("cli_runs"))
 	}
